@@ -209,6 +209,10 @@ for _k in range(9):
     harness("c13_mini_first_fault_at%d" % _k, props=["C13", "C02"], tier=("thorough" if _k in (0, 1) else "parked"), timeout=1800, mem=8, stubs=[FMT, STUB_COPY, "is_interrupted"],
             what="begin_mini_chain on a fresh file (no MiniFAT yet) with the k-th backend seek/write failing, then retried without fault: the error surfaces; if the retry returns Ok the header names the MiniFAT sector the allocator uses, the MiniFAT cell and the root entry are in the file (an Ok after a failed attempt must leave a file that reopens)",
             bounds="fault position k concrete per instance (0..8); 2-sector v3 image growing to 4", functions=MINI_F + ["Allocator::allocate_sector", "Sectors::init_sector"], assumes=[A_SHAPE, A_IOCOPY, A_NOINTR])
+for _k in range(8):
+    harness("c13_mini_first_seekfault_at%d" % _k, props=["C13", "C02"], tier="parked", timeout=1800, mem=8, stubs=[FMT, STUB_COPY, "is_interrupted"],
+            what="begin_mini_chain on a fresh file with the k-th backend SEEK failing (writes never fail), then retried without fault: the error surfaces; if the retry returns Ok the header names the MiniFAT sector the allocator uses, the MiniFAT cell and the root entry are in the file",
+            bounds="k-th seek, k concrete per instance (0..7); 2-sector v3 image growing to 4", functions=MINI_F + ["Allocator::allocate_sector", "Sectors::init_sector"], assumes=[A_SHAPE, A_IOCOPY, A_NOINTR])
 # ---------------------------------------------------------------- C11: entries whose (start sector, length) disagree with their chain (h_incons.rs)
 _INCONS = [("eoc100_write0", "quick"), ("eoc100_write_at_len", "thorough"), ("eoc100_resize50", "quick"), ("eoc100_resize200", "thorough"), ("eoc100_resize0", "thorough"),
            ("eoc100_read", "thorough"), ("eoc5000_write0", "thorough"), ("eoc5000_resize100", "thorough"),
